@@ -90,6 +90,11 @@ def cases(ctx):
             for enc in (False, True):
                 for framing in ("bf3", "bec2"):
                     yield ("repeat", pattern, same, enc, framing)
+    # two files in one process, both created WITHOUT a comments argument (the appnotes' way): the first gets comments afterwards,
+    # the second is written - its text holds its own (no) comment lines
+    for how in ("item", "derive", "update"):
+        for framing in ("bf3", "bec2"):
+            yield ("twofiles", how, framing)
     # histories on ONE live Bf3File: every serialisation must be the layout of the object's CURRENT content
     from itertools import product as _product
     depth = 4 if ctx.quick else 5
@@ -223,6 +228,33 @@ def run_case(ctx, case):
     o = Outcome("layout-ok", True)
     if kind == "hist":
         return run_history(ctx, o, case[1:])
+    if kind == "twofiles":
+        _, how, framing = case
+        key = key_of(ctx, 3)
+        a = Bf3File(components=[shapes.mk_component({"tags": [(0xC1, b"\x00")], "content": b"first file", "declared": 10, "enc": False})])
+        if how == "item":
+            a.comments["Note"] = "belongs to the first file"
+        elif how == "update":
+            a.comments.update({"Creator": "first", "Note": "x"})
+        else:
+            cfg_ = {(0x0620, 0x01): (10234).to_bytes(4, "big"), (0x0620, 0x05): (5678).to_bytes(2, "big"), (0x0620, 0x07): b"\x09",
+                    (0x0620, 0x06): b"Testname"}
+            a.set_config(cfg_)
+            a.derive_comments_from_config(cfg_)
+        model = [{"tags": [(0xC1, b"\x01")], "content": shapes.payload(ctx, "c03-two", 21, 0), "declared": 21, "enc": False}]
+        b = Bf3File(components=[shapes.mk_component(model[0])])
+        s_ = io.StringIO()
+        if framing == "bf3":
+            b.write_file(s_, key)
+            check_text(o, s_.getvalue(), [], L.BF3_SIG + b.to_binary(5, key), "second default-constructed Bf3File (the first got comments: %s)" % how)
+        else:
+            bec = Bec2File(b, [InitCustKeyAuthBlock()], key)
+            enc_ = [SoftwareCustKeyEncryptor(ctx.sym("c03-two-ckey"))]
+            bec.write_file(s_, enc_)
+            check_text(o, s_.getvalue(), [], bec.to_binary(enc_), "second default-constructed file in BEC2 framing (the first got comments: %s)" % how)
+        if b.comments:
+            o.viol("isolation|comments-shared", "a file created without comments now has the comments %r of another file" % (b.comments,))
+        return o
     if kind == "repeat":
         _, pattern, same, enc, framing = case
         models = {ch: {"tags": [(0xC1, bytes([i]))], "content": shapes.payload(ctx, "c03-rep-%s" % ch, 17 + i, 0), "declared": 17 + i, "enc": enc}
